@@ -24,6 +24,7 @@ ALLOWED_AXIOMS = {'propext', 'Classical.choice', 'Quot.sound'}
 
 from props import PROPS  # per-property configuration
 import predicates
+import shrink as shrinker
 
 def log(*a):
     print(*a, file=sys.stderr, flush=True)
@@ -62,50 +63,92 @@ def lake_build(targets):
     return r.returncode == 0, r.stdout.decode(errors='replace')
 
 # ---------------------------------------------------------------- running a stream
-def run_impl(binary, inp_path, exp_path, per_case_timeout=10.0):
-    """Run the real crate over all lines; a dead or hung worker is restarted after the killing line,
-    which gets the answer `crash <signal>` / `timeout`."""
+def run_impl(binary, inp_path, exp_path, per_case_timeout=10.0, env=None):
+    """Run the real crate over all lines in a worker process.  A dead worker (stack overflow, abort) or a worker that
+    produces no answer for `per_case_timeout` seconds (hang) is restarted after the killing line, which gets the
+    answer `crash` / `timeout`."""
+    import threading, queue
     lines = open(inp_path).read().split('\n')
     if lines and lines[-1] == '': lines.pop()
-    answers = []
+    answers, crashes = [], []
     start = 0
-    crashes = []
     while start < len(lines):
-        chunk = '\n'.join(lines[start:]) + '\n'
-        p = subprocess.Popen([binary, 'run'], stdin=subprocess.PIPE, stdout=subprocess.PIPE, stderr=subprocess.DEVNULL, env=ENV)
-        try:
-            # generous overall limit: per-case budget times number of cases, at least 60 s
-            out, _ = p.communicate(chunk.encode(), timeout=max(60.0, min(3600.0, per_case_timeout * 0.01 * (len(lines) - start))))
-            got = out.decode(errors='replace').split('\n')
-            if got and got[-1] == '': got.pop()
-            kind = None if (p.returncode == 0 and len(got) == len(lines) - start) else f'crash rc={p.returncode}'
-        except subprocess.TimeoutExpired:
-            p.kill(); out, _ = p.communicate()
-            got = out.decode(errors='replace').split('\n')
-            if got and got[-1] == '': got.pop()
-            # the last line may be incomplete output of nothing; the hanging case is the next one
-            kind = 'timeout'
-        answers.extend(got[:len(lines) - start])
+        p = subprocess.Popen([binary, 'run'], stdin=subprocess.PIPE, stdout=subprocess.PIPE, stderr=subprocess.DEVNULL, env=env or ENV)
+        chunk = ('\n'.join(lines[start:]) + '\n').encode()
+        def feed():
+            try: p.stdin.write(chunk); p.stdin.close()
+            except Exception: pass
+        threading.Thread(target=feed, daemon=True).start()
+        q = queue.Queue()
+        def pump():
+            for raw in p.stdout: q.put(raw)
+            q.put(None)
+        threading.Thread(target=pump, daemon=True).start()
+        got = []; kind = None
+        while True:
+            try: item = q.get(timeout=per_case_timeout)
+            except queue.Empty:
+                kind = 'timeout'; p.kill(); break
+            if item is None: break
+            got.append(item.decode(errors='replace').rstrip('\n'))
+        p.wait()
+        expected = len(lines) - start
+        if kind is None and (p.returncode != 0 or len(got) < expected): kind = f'crash rc={p.returncode}'
+        answers.extend(got[:expected])
         if kind is None: break
         killer = start + len(got)
         if killer >= len(lines): break
         answers.append(kind.split()[0])
         crashes.append((killer, lines[killer], kind))
         start = killer + 1
+        if len(crashes) >= 5: break       # enough evidence; do not spend the budget on restarting a systematically failing worker
     with open(exp_path, 'w') as f: f.write('\n'.join(answers) + ('\n' if answers else ''))
     return lines, answers, crashes
 
 def run_model(inp_path, out_path):
-    with open(inp_path) as fi, open(out_path, 'w') as fo:
-        r = subprocess.run([DRIVER], stdin=fi, stdout=fo, stderr=subprocess.PIPE, env=ENV, timeout=7200)
-    out = open(out_path).read().split('\n')
-    if out and out[-1] == '': out.pop()
-    return out, r.returncode
+    """run the Lean driver over the input, split over up to 16 driver processes (the driver is single-threaded)"""
+    from concurrent.futures import ThreadPoolExecutor
+    lines = open(inp_path).read().split('\n')
+    if lines and lines[-1] == '': lines.pop()
+    k = max(1, min(16, len(lines) // 4000, os.cpu_count() or 1)) if len(lines) >= 8000 or any(l.startswith('tmrange') for l in lines[:3]) else 1
+    if any(l.startswith('tmrange') for l in lines[:3]): k = max(1, min(16, len(lines)))
+    # interleave so that expensive lines are spread evenly
+    parts = [lines[i::k] for i in range(k)]
+    def work(i):
+        p = subprocess.run([DRIVER], input=('\n'.join(parts[i]) + '\n').encode(), stdout=subprocess.PIPE, stderr=subprocess.PIPE, env=ENV, timeout=14400)
+        o = p.stdout.decode(errors='replace').split('\n')
+        if o and o[-1] == '': o.pop()
+        return o, p.returncode
+    with ThreadPoolExecutor(max_workers=k) as ex:
+        res = list(ex.map(work, range(k)))
+    out = [None] * len(lines); rc = 0
+    for i, (o, r) in enumerate(res):
+        rc = rc or r
+        for j, line in enumerate(o):
+            if i + j * k < len(out): out[i + j * k] = line
+    out = [x if x is not None else 'missing' for x in out]
+    with open(out_path, 'w') as f: f.write('\n'.join(out) + '\n')
+    return out, rc
 
 def gen_stream(binary, stream, n, seed, path):
     with open(path, 'w') as f:
         r = subprocess.run([binary, 'gen', stream, str(n), str(seed)], stdout=f, stderr=subprocess.PIPE, env=ENV, timeout=3600)
     return r.returncode == 0
+
+def impl_violations(st, binary, lines, workdir, tag='shrink'):
+    """indices of the lines on which the implementation violates the property (same criteria as the main loop)"""
+    inp = os.path.join(workdir, f'{tag}.in'); open(inp, 'w').write('\n'.join(lines) + '\n')
+    _, exp, crashes = run_impl(binary, inp, os.path.join(workdir, f'{tag}.exp'), st.get('case_timeout', 10.0))
+    bad = set(k for k, _, _ in crashes)
+    view = predicates.VIEWS[st.get('view', 'full')]
+    if st.get('oracle', 'spec') == 'spec' and st.get('model', True):
+        out, _ = run_model(inp, os.path.join(workdir, f'{tag}.out'))
+        for k in range(len(lines)):
+            parts = [x.strip() for x in (out[k] if k < len(out) else '').split(' | ')]
+            if len(parts) > 1 and k < len(exp) and view(exp[k]) != view(parts[1]): bad.add(k)
+    for chk in st.get('laws', []):
+        for (k, _, _, _) in predicates.LAWS[chk](lines, exp): bad.add(k)
+    return bad
 
 # ---------------------------------------------------------------- audit
 def theorems_of(module):
@@ -218,8 +261,8 @@ def main():
         rp = json.load(open(replay))
         rlines = rp.get('lines', [])
         p = os.path.join(workdir, 'replay.in'); open(p, 'w').write('\n'.join(rlines) + '\n')
-        stream_list = [dict(name='replay', file=p, build=rp.get('build', 'default'), view=rp.get('view', cfg['streams'][0].get('view', 'full')),
-                            oracle=rp.get('oracle', cfg['streams'][0].get('oracle', 'spec')))]
+        stream_list = [dict(name=rp.get('stream', 'replay'), file=p, build=rp.get('build', 'default'), view=rp.get('view', cfg['streams'][0].get('view', 'full')),
+                            oracle=rp.get('oracle', cfg['streams'][0].get('oracle', 'spec')), laws=rp.get('laws', []), model=rp.get('model', True))]
     for st in stream_list:
         name = st['name']; build = st.get('build', 'default')
         if build not in bins or not os.path.exists(DRIVER): continue
@@ -233,9 +276,13 @@ def main():
         if os.path.exists(corpus) and 'file' not in st:
             body = open(inp).read(); open(inp, 'w').write(open(corpus).read() + body)
         ts = time.time()
-        lines, exp, crashes = run_impl(bins[build], inp, os.path.join(workdir, f'{name}-{build}.exp'), st.get('case_timeout', 10.0))
+        senv = dict(ENV, TZ=st['tz']) if st.get('tz') else ENV
+        lines, exp, crashes = run_impl(bins[build], inp, os.path.join(workdir, f'{name}-{build}.exp'), st.get('case_timeout', 10.0), env=senv)
         if st.get('repeat_process'):
-            _, exp2, _ = run_impl(bins[build], inp, os.path.join(workdir, f'{name}-{build}.exp2'), st.get('case_timeout', 10.0))
+            # a second, fresh process (new hasher seeds) evaluating the same calls in REVERSED order (another call history)
+            rinp = os.path.join(workdir, f'{name}-{build}.rev.in'); open(rinp, 'w').write('\n'.join(reversed(lines)) + '\n')
+            _, exp2r, _ = run_impl(bins[build], rinp, os.path.join(workdir, f'{name}-{build}.exp2'), st.get('case_timeout', 10.0), env=senv)
+            exp2 = list(reversed(exp2r)) if len(exp2r) == len(lines) else []
             for k, line in enumerate(lines):
                 a = exp[k] if k < len(exp) else 'missing'; b = exp2[k] if k < len(exp2) else 'missing'
                 falsifier_cases += 1
@@ -286,11 +333,23 @@ def main():
                                              distribution=dict(sorted(dist.items(), key=lambda kv: -kv[1])[:25]),
                                              wall_s=round(time.time() - ts, 1))
         if lines: samples.append(dict(stream=name, input=lines[min(len(lines) - 1, 7)][:400], impl=(exp[min(len(exp) - 1, 7)] if exp else '')[:200]))
+        shrunk_done = 0
         for (k, line, e, s) in dis_spec:
             kid = predicates.known_finding(pid, name, line + ((' #' + info[k]) if k in info else ''), e, s, known_ids)
             if kid: known_hit.setdefault(kid, (line, e, s)); continue
+            minimal = None
+            if shrunk_done < 1 and replay is None and not kid:
+                # shrink the first failing case of this stream to a minimal one that still violates the property
+                shrunk_done += 1
+                try:
+                    fails = lambda ls: [i in impl_violations(st, bins[build], ls, workdir) for i in range(len(ls))]
+                    m = shrinker.shrink(line, fails)
+                    if m != line: minimal = m
+                except Exception as ex:
+                    minimal = None
             problems.append(('impl-violation', f'stream {name}: implementation answers `{e[:200]}`, the property prescribes `{str(s)[:200]}`',
-                             dict(stream=name, build=build, lines=[line], expected=s, actual=e, view=st.get('view', 'full'), oracle=oracle)))
+                             dict(stream=name, build=build, lines=[minimal or line], original_line=line if minimal else None, expected=s, actual=e,
+                                  view=st.get('view', 'full'), oracle=oracle, laws=st.get('laws', []), model=st.get('model', True))))
         spec_lines = {k for (k, _, _, _) in dis_spec}
         for (k, line, e, m) in dis_model:
             if k in spec_lines: continue
